@@ -86,14 +86,14 @@ type VObs struct {
 	PlugCaps   []string `json:"plugCaps"`
 	Panic      bool     `json:"panic"`
 	// C05 call shape / naming
-	RevChainLen int    `json:"revChainLen"`
-	RevZeroTime bool   `json:"revZeroTime"`
-	TsaRevCalled   bool `json:"tsaRevCalled"`
-	TsaRevZeroTime bool `json:"tsaRevZeroTime"`
-	RevIface    string `json:"revIface"`
-	RevNamed    int    `json:"revNamed"` // index (1-based, leaf = 1) of the certificate named in the revocation error, 0 if none
-	RevClass    string `json:"revClass"` // "ok" | "revoked" | "unknown" | "none"
-	ErrText     string `json:"-"`
+	RevChainLen    int    `json:"revChainLen"`
+	RevZeroTime    bool   `json:"revZeroTime"`
+	TsaRevCalled   bool   `json:"tsaRevCalled"`
+	TsaRevZeroTime bool   `json:"tsaRevZeroTime"`
+	RevIface       string `json:"revIface"`
+	RevNamed       int    `json:"revNamed"` // index (1-based, leaf = 1) of the certificate named in the revocation error, 0 if none
+	RevClass       string `json:"revClass"` // "ok" | "revoked" | "unknown" | "none"
+	ErrText        string `json:"-"`
 }
 
 // values used to concretise metadata atoms: "v2" is the empty string on purpose
@@ -613,6 +613,7 @@ func newVFixture(in VIn, scheme signature.SigningScheme, vc vcase) *vfixture {
 	// --- revocation ---
 	if in.RevVec != nil {
 		setupRevVec(fx, in.RevVec)
+		fx.rev.mirror = (vc.sigMut+vc.capOrd)%2 == 1
 	} else {
 		switch in.Rev {
 		case "revoked":
@@ -640,6 +641,7 @@ func newVFixture(in VIn, scheme signature.SigningScheme, vc vcase) *vfixture {
 		p := &mockPlugin{name: pluginName, version: []string{"1.2.0", "1.0.0", "1.0.0+build.5", "10.0.0", "1.0.1-rc.1"}[vc.sigMut%5], verdicts: map[pf.Capability]string{
 			pf.CapabilityTrustedIdentityVerifier: in.VerdictTI, pf.CapabilityRevocationCheckVerifier: in.VerdictREV}}
 		fx.plugin = p
+		p.nilEmpty = (vc.sigMut+vc.baseIdx)%2 == 1
 		fx.manager = &mockManager{plugins: map[string]*mockPlugin{pluginName: p}}
 		ti, rv := pf.CapabilityTrustedIdentityVerifier, pf.CapabilityRevocationCheckVerifier
 		switch in.Plugin {
